@@ -221,7 +221,7 @@ BACKTRACKING:
 				break
 			}
 
-			next := NextSeparator(path, i)
+			next := nextPathSeparator(path, i)
 			nextParams := params
 			nextParams = append(nextParams, Param{Value: path[i:next]})
 			if nd, nextNextParams, found := da.lookup(path[next:], nextParams, nextIdx); found {
@@ -237,6 +237,16 @@ BACKTRACKING:
 		}
 	}
 	return nil, nil, false
+}
+
+// nextPathSeparator returns the index of the next '/' in a looked-up path, or len(path).
+// Unlike NextSeparator, which scans record keys, it does not stop at the termination
+// character: in a looked-up path '#' is ordinary data and belongs to the parameter value.
+func nextPathSeparator(path string, start int) int {
+	for start < len(path) && path[start] != SeparatorCharacter {
+		start++
+	}
+	return start
 }
 
 // build builds double-array from records.
